@@ -20,7 +20,8 @@ OUT_OF_SCOPE = {
  'AccessString': 'the access string does not depend on the file mode in the shipped code either (r and w are constant)',
  'startPlugins': 'pre-installed (launched) plugins: C18 territory, not applicable here', 'ParsePluginName': 'file names of launched plugins',
  'initConfigLinux': 'Config is never nil in the generator under test', 'initConfigHooks': 'Config is never nil in the generator under test',
- 'initRlimits': 'append to nil is the same', 'splitEnvVar': 'strings.SplitN never returns an empty slice: dead branch',
+ 'initRlimits': 'append to nil is the same', 'stop': 'process handling of launched plugins (an external plugin is only closed, which close() already did)',
+ 'stopPlugins': 'Adaptation.Stop is outside every claimed property', 'stopListener': 'Adaptation.Stop is outside every claimed property', 'splitEnvVar': 'strings.SplitN never returns an empty slice: dead branch',
 }
 # individually argued equivalent mutants: (file suffix, line, op prefix) -> why
 EQUIVALENT = {
@@ -41,6 +42,7 @@ EQUIVALENT = {
  ('plugin.go', 237, 'delete-call'): 'error path of connecting a launched or pre-connected plugin whose trunk already failed',
  ('adaptation.go', 201, 'delete-call'): 'Adaptation.Stop is outside every claimed property (C17 speaks of disabled connections, not of Stop)',
  ('adaptation.go', 187, 'negate-if'): 'only differs when the listener cannot be created (OS error)',
+ ('adaptation.go', 451, 'negate-if'): 'closed plugins are already closed; stop() of an external plugin does nothing more',
  ('adaptation.go', 451, 'int+1'): 'closed plugins are already closed; stop() of an external plugin does nothing more',
  ('adaptation.go', 451, 'binop'): 'closed plugins are already closed; stop() of an external plugin does nothing more',
  ('adaptation.go', 589, 'binop'): 'order of equal indices is unspecified',
@@ -55,6 +57,34 @@ EQUIVALENT = {
  ('mount.go', 54, 'delete-assign'): 'mount propagation query: excluded by design',
  ('generate.go', 445, 'binop'): 'rootfs propagation for rslave mounts: excluded by design',
  ('generate.go', 446, 'binop'): 'rootfs propagation for rslave mounts: excluded by design',
+ # batch 2
+ ('mux.go', 267, 'binop'): 'a failed trunk write means a dead trunk in the fault model (and in practice): the reader fails and closes the mux whether or not the writer does',
+ ('mux.go', 267, 'negate-if'): 'as above',
+ ('mux.go', 259, 'delete-call'): 'as above',
+ ('mux.go', 268, 'delete-call'): 'as for line 258: the error kind after a failure is not fixed by C11',
+ ('mux.go', 256, 'delete-assign'): 'error text only',
+ ('mux.go', 257, 'int+1'): 'byte count returned together with an error',
+ ('mux.go', 396, 'int+1'): 'byte count returned together with an error',
+ ('mux.go', 399, 'int+1'): 'byte count returned together with an error',
+ ('mux.go', 334, 'delete-assign'): 'a net.Conn read never returns ttrpc.ErrServerClosed: dead case',
+ ('adaptation.go', 487, 'delete-call'): 'Adaptation.Stop is outside every claimed property',
+ ('adaptation.go', 591, 'negate-if'): 'guards logging only',
+ ('adaptation.go', 139, 'negate-if'): 'wasm runtime set-up: launched plugins, not applicable',
+ ('stub.go', 828, 'binop'): 'plugin identity derived from the binary name; every harness passes name and index explicitly',
+ ('stub.go', 833, 'int+1'): 'as above', ('stub.go', 838, 'binop'): 'as above',
+ ('stub.go', 412, 'delete-call'): 'the deferred mux Close below closes the client connection too',
+ ('stub.go', 413, 'delete-assign'): 'rpcc is overwritten by the next Start before any use',
+ ('plugin.go', 250, 'delete-call'): 'without the close signal a plugin that disconnects before registering is given up after the registration timeout instead of at once: still within the bound C17 states',
+ ('plugin.go', 413, 'delete-assign'): 'the base name only appears in log and error texts (claims are keyed by the full name, indices stay distinct)',
+ ('plugin.go', 304, 'negate-if'): 'guards logging only',
+ ('plugin.go', 339, 'delete-assign'): 'the catalogue mutant c07-no-prune: a closed plugin that stays listed is skipped by every relay (documented equivalent)',
+ ('generate.go', 488, 'binop'): 'comparator on distinct destinations',
+ ('generate.go', 136, 'binop'): 'last statement of Adjust and AdjustRlimits never fails: returns nil either way',
+ ('generate.go', 293, 'binop'): 'resource checker option is never set',
+ ('generate.go', 446, 'negate-if'): 'rootfs propagation for rslave mounts: excluded by design',
+ ('generate.go', 382, 'binop'): 'differs only by calling the injector with an empty list',
+ ('generate.go', 167, 'continue-to-break'): 'differs only for an original environment entry without "=": not a valid OCI process environment',
+ ('result.go', 591, 'binop'): 'appending an empty hook list changes nothing', ('result.go', 595, 'binop'): 'appending an empty hook list changes nothing',
 }
 cnt = collections.Counter(r['outcome'].split(' (')[0] for r in rs)
 print(len(rs), 'mutants:', dict(cnt))
